@@ -57,8 +57,9 @@ def driver_case(case, real):
             "op": "workload",
             "desc": G.model_desc(case["desc"]) if case["ext"].lower() in ("json", "yaml", "yml") else None,
             "flags": G.model_flags(case["flags"]),
-            "horizon": None,
-            "tape": case["fuzz"],
+            # only as much of the tape as the real code consumed (+4): the model must
+            # consume exactly the same number of draws
+            "tape": case["fuzz"][: (len(case["fuzz"]) - real["tape_left"] + 4) if "tape_left" in real else 40],
             "draws": draws_for_model(real.get("np_calls", [])),
             "history": real.get("history", []),
         }
@@ -189,8 +190,8 @@ def compare(case, real, model, chk):
         d = first_diff(real["loops"], model["loops"], "loops")
         if d:
             return d
-        if real["tape_left"] != model["tape_left"]:
-            return f"fuzz draws consumed: real leaves {real['tape_left']}, model {model['tape_left']}"
+        if model["tape_left"] != 4:
+            return f"fuzz draws consumed: real {len(case['fuzz']) - real['tape_left']}, model leaves {model['tape_left']} of the 4 spare"
         return None
     if k == "workers":
         return first_diff(real["ok"], model["ok"], "pools")
@@ -303,19 +304,23 @@ def well_formed(case):
                 return False
             if (fl.get("period") or g["period"]) <= 0:
                 return False
+            if (fl.get("loop_timeout", MAXSIZE) - (g["start"] or 0)) // (fl.get("period") or g["period"]) > 1000:
+                return False  # unbounded horizon: nothing finite to instantiate
         elif pol == "fixed":
             if period is None or (n_inv is None and not fl.get("n")):
                 return False
             if (fl.get("n") or n_inv) < 0 or period < 0:
                 return False
         elif pol == "poisson":
-            if (g["rate"] is None and not fl.get("rate")) or n_inv is None or n_inv < 0:
+            if (g["rate"] is None and not fl.get("rate")) or n_inv is None or (fl.get("n") or n_inv) < 0:
                 return False
         elif pol == "gamma":
-            if (g["rate"] is None and not fl.get("rate")) or (g["coefficient"] is None and not fl.get("coef")) or n_inv is None or n_inv < 0:
+            if (g["rate"] is None and not fl.get("rate")) or (g["coefficient"] is None and not fl.get("coef")):
+                return False
+            if (n_inv is None and not fl.get("n")) or (fl.get("n") or n_inv) < 0:
                 return False
         elif pol == "closed_loop":
-            if g["concurrency"] is None or n_inv is None or g["concurrency"] <= 0 or n_inv <= 0:
+            if g["concurrency"] is None or n_inv is None or g["concurrency"] <= 0 or (fl.get("n") or n_inv) <= 0:
                 return False
         else:
             return False
@@ -498,6 +503,12 @@ def oracle_workload(case, real, live):
         if kind == "fixed" and exp_n >= 0:
             if rels != [s + i * exp_period for i in range(exp_n)]:
                 v.append(("release-fixed: not N releases one period apart from the start", f"{where}: {rels}"))
+        elif kind == "periodic" and exp_period > 0:
+            h_ = fl.get("loop_timeout", MAXSIZE)
+            if (h_ - s) // exp_period > 100000:
+                pass  # unbounded horizon (default --loop_timeout): nothing finite is described; numpy overflows / MemoryError
+            elif rels != list(range(s, h_, exp_period)):
+                v.append(("release-periodic: not every period from the start until the horizon (--loop_timeout)", f"{where}: {rels}"))
         elif kind in ("poisson", "gamma") and exp_n > 0:
             call = calls[ci] if ci < len(calls) else None
             ci += 1
@@ -710,7 +721,7 @@ def corpus():
     return [
         case(g([n("a", slo=500, children=["b"]), n("b")])),  # slo leak
         case(g([n("a", slo=500, children=["b"]), n("b", slo=900)])),  # slo leak (own slo lost)
-        case(g([n("a")], policy="periodic", period=100, invocations=None)),  # periodic via loader
+        case(g([n("a")], policy="periodic", period=100, invocations=None), flags={"loop_timeout": 350}),  # periodic via loader (was L1)
         case(g([n("a")], policy="poisson", rate=0.01, invocations=2), flags={"n": 4}),  # override ignored
         case(g([n("a")], policy="closed_loop", concurrency=2, invocations=5), plan=[[0, 0, 10 * i] for i in range(8)], ext="json"),
         case(g([n("a", children=["c"]), n("b"), n("c")], variance=[15, 15]), flags={"repl": 2}),
@@ -752,7 +763,7 @@ def account(chk, case, real):
             chk.count(f"policy:{g['policy']}")
             if g.get("variance"):
                 chk.count("variance:given")
-        for f in ("period", "n", "rate", "coef", "slo", "unique", "repl", "min_deadline", "max_deadline"):
+        for f in ("period", "n", "rate", "coef", "slo", "unique", "repl", "min_deadline", "max_deadline", "loop_timeout"):
             if case["flags"].get(f):
                 chk.count(f"flag:{f}")
         if "ok" in real:
@@ -873,7 +884,7 @@ def run(chk: common.Check):
     )
     chk.assumptions += [
         "names of profiles, graphs and of the nodes of one graph are pairwise different in generated descriptions",
-        "times stay below 2^53 µs (numpy linspace / float accumulation exact); np.arange lengths stay small",
+        "times stay below 2^53 µs (numpy linspace / float accumulation exact); descriptions with a periodic graph get a finite --loop_timeout (<= ~13 releases per graph); the default sys.maxsize horizon (np.arange MemoryError) is not generated",
         "float evaluation of fuzz / gamma accumulation is compared exactly except at near ties of the exact value (|frac-1/2| <= 1e-6), counted as float_slack",
         "flags resolve_conditionals_at_submission, use_branch_predicated_deadlines, decompose_deadlines at their defaults (False)",
         "closed-loop histories report each in-flight graph complete at most once (what the simulator does)",
